@@ -28,6 +28,8 @@ SPEC = {
 }
 SPEC['explanation'] += ' T15.width: the bucket width is derived from the true quotient 1 / threshold (no float floor division).'
 SPEC['decided'] += ['bucket width by true division']
+SPEC['explanation'] += " T9.countfirst: the addition is counted before the closing bucket is compacted. T14.get: get() answers with the count or the caller's default."
+SPEC['decided'] += ['count before compaction']
 MANIFEST = {
     'technique': 'dominance / contradiction checks on tests, who-may-write analysis, must-pass-through on all CFG paths, dependence check on the compaction predicate',
     'text': ('Decides structural necessary conditions of C20 on all paths (omitted n, mapping arguments, keyword counts, '
